@@ -131,13 +131,28 @@ def run_case(ctx, rng, graph, gkind, i):
         ds[sparse] = batch
     if _amax(ds[True] - ds[False]) > (1e-8 if dtype == np.float64 else 1e-3) * max(1.0, np.abs(ds[False]).max()):
         ctx.fail("sparse_and_dense_distances_differ", cls="GMRFVectorModel", mech=gkind)
+    if i % 23 == 5:
+        # a large batch of queries (several hundred, not a round number): every entry is the single-query distance
+        nq = int(rng.integers(513, 1400))
+        Q = X[rng.integers(0, len(X), nq)] + rng.normal(scale=0.5, size=(nq, X.shape[1]))
+        big = {sp_: np.asarray(m_.mahalanobis_distance(Q), dtype=float) for sp_, m_ in models.items()}
+        ctx.tap("large_query_batches", "calls"); ctx.tap("large_query_batches", "checked")
+        tail = np.array([float(models[True].mahalanobis_distance(row)) for row in Q[-5:]])
+        if big[True].shape != (nq,) or _amax(big[True] - big[False]) > (1e-8 if dtype == np.float64 else 1e-3) * max(1.0, np.abs(big[False]).max()) \
+                or _amax(big[True][-5:] - tail) > 1e-6 * max(1.0, np.abs(tail).max()):
+            ctx.fail("batched_and_single_distances_differ", cls="GMRFVectorModel", mech="large_batch_sparse_vs_dense_or_single", n_queries=nq)
     # a model that keeps learning is still "the" model of everything it has seen: unequal batches, judged by the increment tap
     if i % 3 == 0:
         vm = GMRFVectorModel(X.copy(), graph, mode=mode, n_components=trunc, dtype=dtype, sparse=bool(i % 2), bias=bias, incremental=True)
         seen = X
         for _k in range(int(rng.integers(1, 4))):
             more = gmrfmon.make_data(rng, int(rng.integers(1, 9)) + (0 if _k else 3), V, k)
-            vm.increment(more.copy())
+            if rng.random() < 0.4:
+                import io, contextlib
+                with contextlib.redirect_stdout(io.StringIO()):
+                    vm.increment(more.copy(), verbose=True)        # the progress flag changes what is printed, nothing else
+            else:
+                vm.increment(more.copy())
             seen = np.vstack([seen, more])
             ctx.tap("vector_model_increment", "calls"); ctx.tap("vector_model_increment", "checked")
             if vm.n_samples != len(seen) or _amax(np.asarray(vm.mean_vector, dtype=float) - seen.mean(0)) > (1e-9 if dtype == np.float64 else 1e-4) * max(1.0, float(np.abs(seen).max())):
